@@ -36,7 +36,7 @@ Definition no_opts : dopts := mk_dopts false false false.
 
 (* quirk tags: executions that enter a path recorded as a known finding *)
 Definition Q_LOCAL_SETS_REF : N := 1.   (* local timestamp without reference becomes the reference *)
-Definition Q_TS_ZERO : N := 2.          (* an explicit timestamp 0 counts as "no reference" *)
+Definition Q_TS_ZERO : N := 2.          (* a timestamp 0 (explicit, or reached by a compressed step wrapping 2^32) counts as "no reference" *)
 
 Record dstate := mk_dstate {
   ds_defs : list (option defmsg);      (* d.defmsgs, 16 slots *)
@@ -301,6 +301,8 @@ Definition with_file (s : dstate) (f : file) (g : gstate) : dstate :=
   mk_dstate (ds_defs s) (ds_ts s) (ds_lastoff s) (ds_unkf s) (ds_unkm s) f g (ds_quirks s).
 Definition with_time (s : dstate) (ts lo : N) : dstate :=
   mk_dstate (ds_defs s) ts lo (ds_unkf s) (ds_unkm s) (ds_file s) (ds_g s) (ds_quirks s).
+Definition with_quirk (s : dstate) (q : N) : dstate :=
+  mk_dstate (ds_defs s) (ds_ts s) (ds_lastoff s) (ds_unkf s) (ds_unkm s) (ds_file s) (ds_g s) (q :: ds_quirks s).
 
 (* store a value in struct field sindex of the message under construction *)
 Definition msg_set (m : msg) (sindex : nat) (v : goval) : msg := mk_msg (m_num m) (set_nth sindex v (m_fields m)).
@@ -406,7 +408,8 @@ Definition parse_data_message (o : dopts) (b : N) (compressed : bool) : P (optio
     (* d.timestamp += uint32((timeOffset - d.lastTimeOffset) & 0x1F), in int32/uint32 *)
     let delta := (off + 32 - ds_lastoff s) mod 32 in
     let ts := (ds_ts s + delta) mod 2 ^ 32 in
-    put_st (with_time s ts off) ;;;
+    (* a step that wraps the 32-bit reference to exactly 0 enters the recorded defect "0 = no reference" *)
+    put_st (if ts =? 0 then with_quirk (with_time s ts off) Q_TS_ZERO else with_time s ts off) ;;;
     match get_field gmn c_fieldNumTimeStamp with
     | Some p =>
         match msgv with
